@@ -20,7 +20,10 @@ class StrRaisesError(Exception):
         raise RuntimeError("no str for you")
 
 
-KINDS = [None, ValueError, OSError, DestError, StrRaisesError]
+# an exception class created in a C extension / with type(): its __module__ need not be a string
+ModulelessError = type("ModulelessError", (Exception,), {"__module__": None})
+
+KINDS = [None, ValueError, OSError, DestError, StrRaisesError, ModulelessError]
 
 
 def make_exc(kind, text):
